@@ -721,7 +721,7 @@ fn main() {
 
     let mut stage_counts: HashMap<(bool, Stage), usize> = HashMap::new();
     let mut panics: Vec<String> = vec![];
-    let mut accepted_terms: Vec<(String, usize, String)> = vec![]; // (name, n_stmts, term)
+    let mut accepted_terms: Vec<(String, usize, String, String)> = vec![]; // (name, n_stmts, term, sierra text)
     let mut dump_errors: Vec<String> = vec![];
     let mut static_failures: Vec<String> = vec![];
     let mut static_counts: (usize, usize, usize) = (0, 0, 0);
@@ -735,7 +735,7 @@ fn main() {
                       is_mutant: bool,
                       linear: bool,
                       stage_counts: &mut HashMap<(bool, Stage), usize>,
-                      accepted_terms: &mut Vec<(String, usize, String)>,
+                      accepted_terms: &mut Vec<(String, usize, String, String)>,
                       panics: &mut Vec<String>,
                       dump_errors: &mut Vec<String>,
                       static_failures: &mut Vec<String>,
@@ -764,7 +764,12 @@ fn main() {
             }
             if program.statements.len() <= max_stmts_coq {
                 match dump(program, info, metadata, casm, *gas) {
-                    Ok(t) => accepted_terms.push((name, program.statements.len(), t)),
+                    Ok(t) => accepted_terms.push((
+                        name,
+                        program.statements.len(),
+                        t,
+                        catch(AssertUnwindSafe(|| program.to_string())).unwrap_or_default(),
+                    )),
                     Err(e) => dump_errors.push(format!("{name}: {e}")),
                 }
             }
@@ -831,16 +836,16 @@ fn main() {
 
     // ---- write Coq shards: pack programs up to ~1500 statements per shard ----
     let mut shards = 0;
-    let mut cur: Vec<&(String, usize, String)> = vec![];
+    let mut cur: Vec<&(String, usize, String, String)> = vec![];
     let mut cur_size = 0;
-    let mut flush = |cur: &mut Vec<&(String, usize, String)>, shards: &mut usize| {
+    let mut flush = |cur: &mut Vec<&(String, usize, String, String)>, shards: &mut usize| {
         if cur.is_empty() {
             return;
         }
         let mut s = String::new();
         writeln!(s, "From Coq Require Import ZArith List.\nImport ListNotations.\nFrom Sierra Require Import Annot Corr.").unwrap();
         writeln!(s, "Local Open Scope Z_scope.").unwrap();
-        for (k, (name, _, term)) in cur.iter().enumerate() {
+        for (k, (name, _, term, _)) in cur.iter().enumerate() {
             writeln!(s, "(* {} *)", name.replace("*)", "* )")).unwrap();
             writeln!(s, "Definition prog_{} : program := {}.", k, term).unwrap();
         }
@@ -852,7 +857,9 @@ fn main() {
         .unwrap();
         writeln!(s, "Definition bad := Eval vm_compute in check_accept cases.").unwrap();
         writeln!(s, "Print bad.").unwrap();
-        let names: Vec<String> = cur.iter().map(|(n, _, _)| n.clone()).collect();
+        let names: Vec<String> = cur.iter().map(|(n, _, _, _)| n.clone()).collect();
+        let texts: Vec<String> = cur.iter().map(|(n, _, _, t)| format!("{:?}: {:?}", n, t)).collect();
+        fs::write(format!("{}/acc_{:03}.sierra.json", out_dir, shards), format!("{{{}}}", texts.join(",\n"))).unwrap();
         fs::write(format!("{}/acc_{:03}.v", out_dir, shards), s).unwrap();
         fs::write(format!("{}/acc_{:03}.names", out_dir, shards), names.join("\n")).unwrap();
         *shards += 1;
@@ -892,7 +899,7 @@ fn main() {
     fs::write(format!("{}/panics.json", out_dir), format!("[{}]", panics.join(",\n"))).unwrap();
     fs::write(format!("{}/dump_errors.txt", out_dir), dump_errors.join("\n")).unwrap();
     fs::write(format!("{}/static_failures.json", out_dir), format!("[{}]", static_failures.join(",\n"))).unwrap();
-    let samples: Vec<String> = accepted_terms.iter().rev().take(3).map(|(n, k, _)| format!("{n} ({k} statements)")).collect();
+    let samples: Vec<String> = accepted_terms.iter().rev().take(3).map(|(n, k, _, _)| format!("{n} ({k} statements)")).collect();
     fs::write(format!("{}/samples.txt", out_dir), samples.join("\n")).unwrap();
     println!("{}", summary);
 }
